@@ -19,6 +19,7 @@ import (
 	"strconv"
 	"strings"
 	"sync"
+	"sync/atomic"
 	"time"
 )
 
@@ -79,6 +80,7 @@ type Ctx struct {
 	Seed    int
 	Shard   int
 	NShards int
+	memStop int32 // set by the memory watchdog at two thirds of the hard limit
 
 	Evals       int64
 	States      int64
@@ -109,6 +111,11 @@ func (c *Ctx) Quick() bool { return c.Tier != "thorough" }
 // Expired reports whether the soft budget ended; callers stop enumerating.
 func (c *Ctx) Expired() bool {
 	if c.expired {
+		return true
+	}
+	if atomic.LoadInt32(&c.memStop) != 0 {
+		c.expired = true
+		c.Cap("soft memory limit reached: exploration stopped early, results so far are reported")
 		return true
 	}
 	c.tick++
@@ -292,6 +299,10 @@ func RunShard(ck *Check, tier string, shard, n int, out string) {
 			time.Sleep(500 * time.Millisecond)
 			var ms runtime.MemStats
 			runtime.ReadMemStats(&ms)
+			if ms.HeapAlloc > limit*2/3 {
+				// wind down in an orderly way first, so that what was found so far is still reported
+				atomic.StoreInt32(&c.memStop, 1)
+			}
 			if ms.HeapAlloc > limit {
 				fmt.Fprintf(os.Stderr, "fatal error: verif memory limit exceeded (heap %d MiB) after %d evaluations\n", ms.HeapAlloc>>20, c.Evals)
 				os.Exit(4)
@@ -472,6 +483,13 @@ func Main(ck *Check, tier string) int {
 				continue
 			}
 			rr := reruns[i]
+			if !rr.ok && strings.Contains(rr.stderr, "verif memory limit exceeded") {
+				// the harness's own heap limit: the exploration (its visited-state sets included) outgrew the
+				// process; no verdict from this shard
+				fmt.Fprintf(os.Stderr, "check %s: shard %d stopped at the harness memory limit (no verdict from it): %s\n", ck.ID, i, firstLine(rr.stderr))
+				total.Caps = appendUniq(total.Caps, "a shard stopped at the harness memory limit")
+				continue
+			}
 			if rr.ok {
 				// did not recur under trace mode: use the re-run's (complete) result
 				fmt.Fprintf(os.Stderr, "check %s: shard %d failed once (%s) and completed on re-run; using the re-run\n", ck.ID, i, r.crash)
